@@ -1676,7 +1676,7 @@ def inline_pulled(u, pulled):
                 if not (isinstance(o, dict) and o.get("kind") == "body"):
                     continue
                 out, pos = "", 0
-                pat = (r"((?:self|[a-z_]\w*)(?:\.\w+)*)\s*\.\s*" if has_self else r"(?<![\w.])(?:Self\s*::\s*|self\s*::\s*)?()") + re.escape(fn) + r"\s*\("
+                pat = (r"((?:self|[a-z_]\w*)(?:\.\w+)*)\s*\.\s*" if has_self else r"(?<![\w.:])(?:Self\s*::\s*|self\s*::\s*" + (("|" + re.escape(ty) + r"\s*::\s*") if ty else "") + r")?()") + re.escape(fn) + r"\s*\("
                 for mc in re.finditer(pat, t):
                     if mc.start() < pos:
                         continue
@@ -1696,6 +1696,8 @@ def inline_pulled(u, pulled):
                     rk_ = "&mut " if re.match(r"&\s*(?:'\w+\s+)?mut\s+self", msig.group(1).strip()) else ("&" if msig.group(1).strip().startswith("&") else "")
                     rtxt_ = f"({rk_}{recv})" if rk_ else recv
                     btxt = re.sub(r"\bself\b", lambda m_: rtxt_, body.strip()) if has_self and recv != "self" else body.strip()
+                    if ty and not has_self:
+                        btxt = re.sub(r"\bSelf\b", ty, btxt)      # an associated function inlined outside its impl block
                     binds = ""
                     if names:
                         binds = ("let (" + ", ".join(names) + "): (" + ", ".join(types) + ") = (" + ", ".join(args) + "); ") if len(names) > 1 \
